@@ -16,6 +16,7 @@ ENGINE_OF = {
     'C01': 'engines.e_nnps',
     'C17': 'engines.e_nnps',
     'C07': 'engines.e_dom',
+    'C16': 'engines.e_io',
 }
 
 
